@@ -22,6 +22,71 @@ from sa.report import AnalysisError
 from sa.types import walk_own
 
 
+def part_class_registry(prog, ctx):
+    """{content type: part class} as pptx/__init__.py builds it: the literal table plus the rows added afterwards
+    (`map.update(<dict | dict comprehension | pairs>)`, `map[k] = C`, `for ct in <table>: map[ct] = C`).  A row that does not fold is
+    an ANALYSIS-ERROR (shared by C15 R15.1 and C02 R2.5)."""
+    init = prog.modules.get("pptx")
+    if init is None:
+        raise AnalysisError("anchor vanished: pptx/__init__.py")
+    reg = {}
+    tbl = init.assigns.get("content_type_to_part_class_map")
+    if tbl is None:
+        raise AnalysisError("anchor vanished: content_type_to_part_class_map")
+    for k, v in zip(tbl.keys, tbl.values):
+        kv = prog.const(k, init)
+        cv = prog.resolve(init, dotted(v) or "")
+        if isinstance(kv, str) and isinstance(cv, ClassInfo):
+            reg[kv] = cv
+    # rows added after the literal: `map.update(<dict | dict comprehension | pairs>)`, `map[k] = C`, `for ct in <table>: map[ct] = C`
+    from sa.pysrc import ClassRef as _CR, Unknown as _Unk
+
+    def class_of(v):
+        if isinstance(v, _CR):
+            return v.cls
+        return None
+
+    def add_rows(val):
+        items = list(val.items()) if isinstance(val, dict) else list(val) if isinstance(val, (tuple, list)) else None
+        if items is None:
+            return False
+        for it_ in items:
+            if not (isinstance(it_, (tuple, list)) and len(it_) == 2 and isinstance(it_[0], str) and class_of(it_[1]) is not None):
+                return False
+        for k_, v_ in items:
+            reg[k_] = class_of(v_)
+        return True
+
+    for n in ast.walk(init.tree):
+        if isinstance(n, ast.Call) and isinstance(n.func, ast.Attribute) and n.func.attr == "update" \
+                and dotted(n.func.value) == "content_type_to_part_class_map" and n.args:
+            val = prog.const(n.args[0], init)
+            if isinstance(val, _Unk) or not add_rows(val):
+                ctx.error("pptx.__init__", "rows added to the part-class registry by `%s` do not fold" % ast.unparse(n)[:80])
+        if isinstance(n, ast.For):
+            it = prog.const(n.iter, init)
+            if isinstance(it, dict):
+                it = tuple(it)
+            if isinstance(it, frozenset):
+                it = tuple(sorted(it))
+            for b in n.body:
+                if isinstance(b, ast.Assign) and isinstance(b.targets[0], ast.Subscript) and dotted(b.targets[0].value) == "content_type_to_part_class_map":
+                    cv = prog.resolve(init, dotted(b.value) or "")
+                    if isinstance(it, (tuple, list)) and isinstance(cv, ClassInfo) and dotted(b.targets[0].slice) == dotted(n.target) \
+                            and all(isinstance(x, str) for x in it):
+                        for x in it:
+                            reg[x] = cv
+                    else:
+                        ctx.error("pptx.__init__", "rows added to the part-class registry by the loop at line %d do not fold" % n.lineno)
+        if isinstance(n, ast.Assign) and isinstance(n.targets[0], ast.Subscript) and dotted(n.targets[0].value) == "content_type_to_part_class_map" \
+                and not any(isinstance(p_, ast.For) and any(x is n for x in ast.walk(p_)) for p_ in ast.walk(init.tree)):
+            kv = prog.const(n.targets[0].slice, init)
+            cv = prog.resolve(init, dotted(n.value) or "")
+            if isinstance(kv, str) and isinstance(cv, ClassInfo):
+                reg[kv] = cv
+    return reg
+
+
 def run(ctx):
     from checks.c10 import load
 
@@ -52,33 +117,7 @@ def run(ctx):
     if not isinstance(ict, dict) or not isinstance(dct, tuple):
         raise AnalysisError("pptx.opc.spec tables do not fold")
     init = prog.modules["pptx"]
-    reg = {}
-    tbl = init.assigns.get("content_type_to_part_class_map")
-    if tbl is None:
-        raise AnalysisError("anchor vanished: content_type_to_part_class_map")
-    for k, v in zip(tbl.keys, tbl.values):
-        kv = prog.const(k, init)
-        cv = prog.resolve(init, dotted(v) or "")
-        if isinstance(kv, str) and isinstance(cv, ClassInfo):
-            reg[kv] = cv
-    # image / media types are added by loops after the literal (for ct in (...): map[ct] = ImagePart)
-    for n in ast.walk(init.tree):
-        if isinstance(n, ast.Call) and isinstance(n.func, ast.Attribute) and n.func.attr == "update" and n.args \
-                and isinstance(n.args[0], ast.DictComp):
-            dc = n.args[0]
-            it = prog.const(dc.generators[0].iter, init)
-            cv = prog.resolve(init, dotted(dc.value) or "")
-            if isinstance(it, (tuple, list)) and isinstance(cv, ClassInfo):
-                for x in it:
-                    reg[x] = cv
-        if isinstance(n, ast.For) and isinstance(n.iter, (ast.Tuple, ast.List)):
-            it = prog.const(n.iter, init)
-            for b in n.body:
-                if isinstance(b, ast.Assign) and isinstance(b.targets[0], ast.Subscript) and isinstance(it, (tuple, list)):
-                    cv = prog.resolve(init, dotted(b.value) or "")
-                    if isinstance(cv, ClassInfo):
-                        for x in it:
-                            reg[x] = cv
+    reg = part_class_registry(prog, ctx)
     ctx.count("format_rows", len(ext_map))
     ctx.count("image_content_types", len(ict))
     ctx.count("default_rows", len(dct))
@@ -510,3 +549,67 @@ def run(ctx):
     else:
         ctx.violation("R15.4", "Image.dpi", "normalised (horz, vert) dpi is not taken component-wise from Pillow's dpi", file=img.file,
                       line=dp.line if dp else img.line)
+
+    # -- R15.5 -------------------------------------------------------------------------------------------
+    ctx.rule("R15.5", "a caller's image stream is rewound before it is read")
+    _r155(ctx, prog)
+
+
+def _r155(ctx, prog):
+    """Image.from_file: every `.read()` of the caller's file-like object is preceded, on the same path, by `.seek(0)` on it (or the
+    path has established that the object has no callable `seek`).  A stream that was just written, inspected, or already used for
+    an earlier picture is positioned past its start: without the rewind the stored bytes are not the image (they are empty), and
+    the SHA1 that identifies "the same image" is that of the remainder."""
+    from sa import paths as P_
+    from sa.inline import expand
+
+    img = prog.cls("pptx.parts.image", "Image")
+    ff = img.methods.get("from_file") if img else None
+    if ff is None:
+        raise AnalysisError("anchor vanished: Image.from_file")
+    fx = expand(prog, ff, depth=3, local_only=True)
+    al = P_.value_aliases(fx)
+    param = [a.arg for a in ff.node.args.args if a.arg not in ("self", "cls")][0]
+
+    def is_param(e):
+        for _ in range(6):
+            if isinstance(e, ast.Name) and e.id != param and e.id in al and isinstance(al[e.id], ast.Name):
+                e = al[e.id]
+            else:
+                break
+        return isinstance(e, ast.Name) and e.id == param
+
+    def walk_events(pth):
+        """(kind, node) in execution order: statements of the path, `with` headers and conditions"""
+        for ev in pth.events:
+            if ev[0] in ("stmt", "with", "cond"):
+                yield ev
+        if pth.end_node is not None:
+            yield ("stmt", pth.end_node)
+
+    n_reads, bad = 0, []
+    for pth in P_.enum_paths(fx.body):
+        if pth.end == "raise" or not P_.feasible(pth):
+            continue
+        rewound = False
+        no_seek = any(a[0] == "truthy" and a[2] is False and "seek" in a[1] and param in a[1] for a in P_.facts(pth))
+        for ev in walk_events(pth):
+            node = ev[1].items[0].context_expr if ev[0] == "with" else ev[1]
+            for c in [x for x in ast.walk(node) if isinstance(x, ast.Call) and isinstance(x.func, ast.Attribute)]:
+                if c.func.attr == "seek" and is_param(c.func.value) and c.args and isinstance(c.args[0], ast.Constant) and c.args[0].value == 0:
+                    rewound = True
+                elif c.func.attr in ("read", "getvalue", "readall") and is_param(c.func.value):
+                    if c.func.attr == "getvalue":
+                        continue   # the whole buffer whatever the position
+                    n_reads += 1
+                    if not (rewound or no_seek):
+                        bad.append(c.lineno)
+                    rewound = False
+    if n_reads == 0:
+        ctx.error("Image.from_file", "no read of the caller's file-like object found")
+    elif bad:
+        ctx.violation("R15.5", "Image.from_file", "the caller's stream `%s` is read (line %d) without `%s.seek(0)` before it on that path: a stream "
+                      "positioned past its start (reused for a second picture, just written) yields the remainder, not the image" % (param, bad[0], param),
+                      file=ff.file, line=bad[0])
+    else:
+        ctx.ok("R15.5", "Image.from_file", sample={"stream": param, "rewound": "seek(0) precedes read() on every path that reads the stream"})
